@@ -658,16 +658,18 @@ Inductive use_kind :=
 | UTestOnly        (* inside #[cfg(test)] code *)
 | UFormat          (* argument of a formatting / printing / logging / panic macro *)
 | USerialize       (* argument of a serde_json serialisation call or json! *)
-| UOther.          (* anything the extractor cannot classify *)
+| UOther           (* anything the extractor cannot classify *)
+| UDeserErrDropped. (* typed deserialisation of a secret-bearing type / of the configuration document whose ERROR (serde
+                       type errors quote the offending scalar) is discarded on the spot: load_config *)
 Definition use_kind_code (k : use_kind) : N :=
   match k with
   | UDecl => 0 | UMove => 1 | UResolve => 2 | UPresence => 3 | UBearerAuth => 4 | URequestHeader => 5
   | UNameProjection => 6 | UEnvRead => 7 | UEnvSet => 8 | UTestOnly => 9 | UFormat => 10 | USerialize => 11
-  | UOther => 12
+  | UOther => 12 | UDeserErrDropped => 13
   end.
 (* the flows the model has: resolution (resolve/resolve_key/key_from_env/from_env), copies between the
    records (of_resolved, mk_sent), presence (doctor_of), the request (mk_sent), header names (doctor_of) *)
-Definition allowed_use (k : N) : bool := k <=? 9.
+Definition allowed_use (k : N) : bool := (k <=? 9) || (k =? 13).
 
 (* derives on secret-bearing types: (type name code, derive code).  Debug = 0, Serialize = 1, Display impl = 2.
    A derive is a latent sink; it is tolerated only while NO formatting / serialising use of a value of
